@@ -15,7 +15,7 @@ cd $WT
 cp $SRC/demo*_test.go $SRC/demo*.go $WT/$PKG/ 2>/dev/null
 MOD=$(cd $WT/$PKG && go list -m -f '{{.Dir}}' 2>/dev/null | head -1)
 echo "module dir: $MOD" >> $LOG
-run_demo() { (cd $WT/$PKG && go test -count=1 -run 'Demo|C[0-9][0-9][AB]' . 2>&1 | tail -15); }
+run_demo() { (cd $WT/$PKG && go test -count=1 -run "${DEMO_RUN:-Demo|C[0-9][0-9][AB]}" . 2>&1 | tail -15); }
 echo "--- demo on clean tree" >> $LOG
 run_demo >> $LOG; grep -q "^ok" $LOG && CLEAN=pass || CLEAN=fail
 if git apply $SRC/patch.diff 2>>$LOG || git apply -3 $SRC/patch.diff 2>>$LOG; then APPLY=ok; else APPLY=conflict; fi
